@@ -324,15 +324,21 @@ def tested_call(t, c):
     if is_call(y, "branch") and y[2]:
         y = look(y[2][0])
         via = True
-    while is_call(y, "map_err", "ok_or", "ok_or_else") and y[2] and y[1].split("::")[0] in ("std", "core"):
+    flip = False
+    while is_call(y, "map_err", "ok_or", "ok_or_else", "ok") and y[2] and y[1].split("::")[0] in ("std", "core"):
+        if last_seg(y[1]) in ("ok_or", "ok_or_else", "ok") and ("Result" in y[1]) == (last_seg(y[1]) == "ok"):
+            flip = not flip      # Option <-> Result: Some/Ok and None/Err swap discriminant values
         y = look(y[2][0])
     if y[0] != "call":
         return None, None
     if via:
         out = "ok" if c == ("eq", 0) else ("err" if c in (("eq", 1), ("ne", (0,))) else None)
         return y, out
-    # Result: 0 = Ok, 1 = Err;  Option: 0 = None, 1 = Some -- the caller knows which one it is
-    return y, ("d0" if (c == ("eq", 0) or (c[0] == "ne" and 1 in c[1] and 0 not in c[1])) else "d1" if (c == ("eq", 1) or (c[0] == "ne" and 0 in c[1] and 1 not in c[1])) else None)
+    # Result: 0 = Ok, 1 = Err;  Option: 0 = None, 1 = Some -- the caller knows which one the *call* returns
+    d = "d0" if (c == ("eq", 0) or (c[0] == "ne" and 1 in c[1] and 0 not in c[1])) else "d1" if (c == ("eq", 1) or (c[0] == "ne" and 0 in c[1] and 1 not in c[1])) else None
+    if flip and d is not None:
+        d = "d1" if d == "d0" else "d0"
+    return y, d
 
 
 def result_test(t, c, pred):
